@@ -80,7 +80,7 @@ reg(PropertySpec(
     functions=["transforms:CompositeTransform.__init__", "transforms:CompositeTransform.forward", "transforms:CompositeTransform.inverse", "transforms:CompositeTransform.fit",
                "transforms:PeriodicTransform.fit", "transforms:BoundedTransform.fit", "transforms:ProbitTransform.fit", "transforms:LogitTransform.fit"],
     extra_static=_lazy1("contracts.transforms", "composite_roundtrip_lemma_static"),
-    lean=["C04.lean"],
+    lean=["C04.lean", "@dim"],
     native=_lazy("checks.native_misc", "native_C04"),
     technique="contract-based deductive verification: every element-wise map (logit, sigmoid, unit-interval scaling, LogitTransform, ProbitTransform, PeriodicTransform, AffineTransform forward/inverse and their log-Jacobians) is translated from the ast to Lean on every run; bijection, HasDerivAt = exp(log-Jacobian), inverse log-Jacobian = -forward, wrap range/congruence are Lean/Mathlib theorems; composition order and log-Jacobian summation of CompositeTransform by symbolic execution (z3); bounded native stand-in",
     trusted_base=["py2lean translation in the scalar element view (diagonal Jacobian: per-coordinate maps act independently, the .sum(-1) of per-coordinate log-derivatives is the log-determinant)",
@@ -224,7 +224,7 @@ FLOWQ = ["flows.torch.flows:ZukoFlow.sample_and_log_prob", "flows.torch.flows:Zu
 
 reg(PropertySpec(
     "C03", "The fitted proposal is a normalised density; sampling and evaluation agree",
-    functions=FLOWQ + ["transforms:CompositeTransform.__init__", "transforms:CompositeTransform.forward", "transforms:CompositeTransform.inverse"], lean=["C04.lean"],
+    functions=FLOWQ + ["transforms:CompositeTransform.__init__", "transforms:CompositeTransform.forward", "transforms:CompositeTransform.inverse"], lean=["C04.lean", "@dim"],
     extra_static=_lazy1("contracts.transforms", "composite_roundtrip_lemma_static"),
     native=_lazy("checks.native_misc", "native_C03"),
     technique="contract-based deductive verification of the flow wrappers: the real ZukoFlow/FlowJax sample_and_log_prob, log_prob and sample are executed symbolically with row-wise models of the neural flow and the data transform; obligations: log_q = base_lp(x') - logJ_inv(x'), log_prob = base_lp(T x) + logJ_fwd(x), and (using the data transform's C04 contract at the goal's row) the log-density returned with draws equals log_prob at those draws; draws inside the bounds from the Lean theorems about the generated inverse maps; bounded native agreement / quadrature / reload",
